@@ -30,6 +30,10 @@ def cases(tier, rng, dist):
                         if tier == "quick" and reps == 2 and m == 2 and (sum(cells) + len(meth)) % 3:
                             continue
                         yield {"table": t, "method": meth, "alts": alt, "in_place": False, "pynum": (sum(cells) % 2 == 0), "rot": False}
+    # very many randomizations (beyond 2^16, not a multiple of it): every one of them counts
+    for k in range(2 if tier == "quick" else 6):
+        yield {"big": True, "seed": rng.randint(0, 10**6), "reps": 70001 + 7 * k, "m": 2 + k % 2, "method": ["minP", "maxT"][k % 2], "alts": ["greater", "two-sided"][(k // 2) % 2],
+               "table": [[0]], "in_place": False, "pynum": True, "rot": False}
     for _ in range(300 if tier == "quick" else 3000):
         reps, m = rng.randint(1, 6), rng.randint(1, 3)
         a = rng.randint(1, 3)
@@ -45,6 +49,34 @@ def cases(tier, rng, dist):
         else: alts = ("greater",)
         yield {"table": t, "method": rng.choice(["minP", "maxT"] * 6 + ["maxP"]), "alts": alts, "in_place": rng.random() < 0.5,
                "pynum": rng.random() < 0.5, "rot": (tier == "thorough" or rng.random() < 0.15), "perm_seed": rng.randint(0, 10**6)}
+
+
+def big_table(c):
+    return np.random.RandomState(c["seed"]).randint(-3, 4, size=(c["reps"] + 1, c["m"]))
+
+
+def textbook_big(t, method, two_sided):
+    """the step-down min-P / max-T values on integer counts, O(n log n) per hypothesis (tables with tens of thousands of rows)"""
+    n, m = t.shape
+    S = np.abs(t) if two_sided else t
+    C = np.empty((n, m), dtype=np.int64)                      # C[r, j] = #{rows with statistic >= row r's} in column j
+    for j in range(m):
+        srt = np.sort(S[:, j]); C[:, j] = n - np.searchsorted(srt, S[:, j], side="left")
+    raw = C[0].copy()
+    adj = [None] * m; prev = 0
+    if method == "minP":
+        L = sorted(range(m), key=lambda j: int(raw[j]), reverse=True)[::-1]
+        cm = np.full(n, n + 1, dtype=np.int64); cnts = {}
+        for k in range(m - 1, -1, -1):
+            cm = np.minimum(cm, C[:, L[k]]); cnts[k] = int(np.sum(cm <= raw[L[k]]))
+    else:
+        L = sorted(range(m), key=lambda j: int(S[0, j]))[::-1]
+        cx = np.full(n, -10**9, dtype=np.int64); cnts = {}
+        for k in range(m - 1, -1, -1):
+            cx = np.maximum(cx, S[:, L[k]]); cnts[k] = int(np.sum(cx >= S[0, L[k]]))
+    for k, j in enumerate(L):
+        prev = max(cnts[k], prev); adj[j] = Fraction(prev, n)
+    return adj, [Fraction(int(v), n) for v in raw]
 
 
 def drive(table, method, alts, in_place, pynum):
@@ -71,6 +103,9 @@ def drive(table, method, alts, in_place, pynum):
 
 
 def run(c):
+    if c.get("big"):
+        r, grp = drive(big_table(c), c["method"], c["alts"], False, True)
+        return {"r": r, "group_after": grp}
     alts = c["alts"] if not isinstance(c["alts"], list) else list(c["alts"])
     if isinstance(c["alts"], list) and False:
         pass
@@ -127,6 +162,15 @@ def textbook(c):
 
 def oracle(c, o):
     r = o["r"]
+    if c.get("big"):
+        if r[0] != "ok":
+            return {"why": f"westfall_young(reps={c['reps']}) raised {r[:3]}", "cls": "westfall_young:raises"}
+        adj, raw = textbook_big(big_table(c), c["method"], c["alts"] == "two-sided")
+        if any(abs(Fraction(a) - b) > Fraction(1, 10**9) for a, b in zip(r[2], raw)):
+            return {"why": f"westfall_young(reps={c['reps']}, {c['method']}, {c['alts']}): raw p-values {r[2]} are not (count+1)/(reps+1) = {[float(x) for x in raw]} (table from RandomState({c['seed']}))", "cls": "westfall_young:raw"}
+        if any(abs(Fraction(a) - b) > Fraction(1, 10**9) for a, b in zip(r[1], adj)):
+            return {"why": f"westfall_young(reps={c['reps']}, {c['method']}, {c['alts']}): adjusted p-values {r[1]} differ from the step-down permutation probabilities {[float(x) for x in adj]} over all {c['reps']} randomizations (table from RandomState({c['seed']}))", "cls": "westfall_young:adjusted"}
+        return None
     tb = textbook(c)
     if tb is None:
         return None if (r[0] == "exc" and r[1] == "ValueError") else {"why": f"invalid method/alternatives {c['method']!r}/{c['alts']!r} not rejected with ValueError: {r[:2]}", "cls": "westfall_young:validation"}
@@ -174,6 +218,8 @@ def oracle(c, o):
 
 
 def to_coq(c, o):
+    if c.get("big"):
+        return None
     r = o["r"]
     m = len(c["table"][0])
     meth = {"minP": "MinP", "maxT": "MaxT"}.get(c["method"], "MBad")
